@@ -1772,16 +1772,17 @@ func (d *Data) sendBlocksSpecific(ctx *datastore.VersionedCtx, w http.ResponseWr
 
 	// iterate through each block and query
 	for i := 0; i < len(coordarray); i += 3 {
-		var xloc, yloc, zloc int
-		xloc, err = strconv.Atoi(coordarray[i])
+		// block coordinates are int32: a larger number is an error, not another block
+		var xloc, yloc, zloc int64
+		xloc, err = strconv.ParseInt(coordarray[i], 10, 32)
 		if err != nil {
 			return
 		}
-		yloc, err = strconv.Atoi(coordarray[i+1])
+		yloc, err = strconv.ParseInt(coordarray[i+1], 10, 32)
 		if err != nil {
 			return
 		}
-		zloc, err = strconv.Atoi(coordarray[i+2])
+		zloc, err = strconv.ParseInt(coordarray[i+2], 10, 32)
 		if err != nil {
 			return
 		}
@@ -2735,7 +2736,7 @@ func (d *Data) ServeHTTP(uuid dvid.UUID, ctx *datastore.VersionedCtx, w http.Res
 			return
 		}
 		w.Header().Set("Content-Type", "application/json")
-		fmt.Fprintf(w, string(jsonBytes))
+		fmt.Fprint(w, string(jsonBytes))
 
 	case "specificblocks":
 		// GET <api URL>/node/<UUID>/<data name>/specificblocks?blocks=x,y,z,x,y,z...
@@ -2853,7 +2854,7 @@ func (d *Data) handleLabel(ctx *datastore.VersionedCtx, w http.ResponseWriter, r
 	}
 	w.Header().Set("Content-type", "application/json")
 	jsonStr := fmt.Sprintf(`{"Label": %d}`, label)
-	fmt.Fprintf(w, jsonStr)
+	fmt.Fprint(w, jsonStr)
 
 	timedLog.Infof("HTTP GET label at %s (%s)", parts[4], r.URL)
 }
